@@ -781,10 +781,11 @@ def explain_jacobian(info):
             extra.append(mask(tid, 40))
         if abs(val) > tol and abs(diff + val) <= tol:
             missing.append(mask(tid, 40))
+    info["candidates"] = {"extra": extra, "missing": missing}
     if extra:
-        return "extra=" + "|".join(extra)
+        return "extra"
     if missing:
-        return "missing=" + "|".join(missing)
+        return "missing"
     return "unexplained"
 
 
@@ -1484,7 +1485,7 @@ def selftest():
     if g["status"] != "ok" or abs(g["expected"] - want) > 1e-10 or abs(g["observed"] - g["expected"]) > 1e-10 or g["free_terms"] != ["u"]:
         raise AssertionError("Jacobian oracle calibration (good books): %r vs %r" % (g, want))
     t = jacobian_oracle(dic["twice"], dic["joint"], blocks)
-    if t["status"] != "ok" or abs(t["observed"] - t["expected"]) < 1e-3 or explain_jacobian(t) != "extra=a":
+    if t["status"] != "ok" or abs(t["observed"] - t["expected"]) < 1e-3 or explain_jacobian(t) != "extra" or t["candidates"]["extra"] != ["a"]:
         raise AssertionError("Jacobian oracle calibration (term counted twice): %r" % (t,))
     m = jacobian_oracle(dic["miss"], dic["joint"], blocks)
     if m["status"] != "ok" or abs(m["observed"] - m["expected"]) < 1e-3:
